@@ -203,6 +203,12 @@ mr('fresh_k2', 2, 0, 8, 300, 9)
 mr('array_full_k2', 2, 15, 200, 300, 6)
 mr('array_last_slot_k2', 2, 14, 200, 140, 4)
 
+# ----------------------------------------------------------------------------------------------- C12: reusable vector (sequential)
+RVX = ['babylon/reusable/memory_resource.cpp', 'babylon/reusable/page_allocator.cpp', 'babylon/concurrent/counter.cpp', 'babylon/new.cpp']
+S('rv_ops_k2', 'reusable/rv.cpp', {'assert': 'C12'}, defs=['VF_K=2'], extra=RVX, models=['sc'], bound=10)
+S('rv_ops_k3', 'reusable/rv.cpp', {'assert': 'C12'}, defs=['VF_K=3'], extra=RVX, models=['sc'], bound=10)
+S('rv_ops_k3_prefilled', 'reusable/rv.cpp', {'assert': 'C12'}, defs=['VF_K=2', 'VF_INIT=v->push_back(7); v->push_back(8); v->push_back(9); ref[0]=7; ref[1]=8; ref[2]=9; rn=3'], extra=RVX, models=['sc'], bound=10)
+
 # ----------------------------------------------------------------------------------------------- manifest texts
 LEVEL_TEXT = {
  'C01': 'Real ConcurrentBoundedQueue<two-word payload, VS> IR; client programs of 2-4 threads mixing push/pop/try_/push_n/pop_n/callback variants on capacities 1-2; oracle = exactly-once multiset, per-thread FIFO, fully published payload, try_ success when sequenced after enough completed operations.',
